@@ -125,7 +125,11 @@ func (c *OpenIDConnectHybridHandler) HandleAuthorizeEndpointRequest(ctx context.
 		claims.CodeHash = hash
 
 		if ar.GetGrantedScopes().Has("openid") {
-			if err := c.OpenIDConnectRequestStorage.CreateOpenIDConnectSession(ctx, resp.GetCode(), ar.Sanitize(oidcParameters)); err != nil {
+			// Store a copy of the session: the ID token issued below for this response writes its expiry and hashes into
+			// the live session, and the code exchange must not inherit them (it has a lifespan of its own).
+			stored := ar.Sanitize(oidcParameters)
+			stored.SetSession(ar.GetSession().Clone())
+			if err := c.OpenIDConnectRequestStorage.CreateOpenIDConnectSession(ctx, resp.GetCode(), stored); err != nil {
 				return errorsx.WithStack(fosite.ErrServerError.WithWrap(err).WithDebug(err.Error()))
 			}
 		}
